@@ -46,6 +46,36 @@ def check(ctx: Ctx) -> None:
     check_energy_uses_modulus(ctx, 'C10.i', [BASE, ALGS], floor=50)
     from ..idioms import check_validated_arrays_copied
     check_validated_arrays_copied(ctx, 'C10.j', [BASE, ALGS], floor=3)
+    from ..idioms import check_no_per_axis_normalisation
+    check_no_per_axis_normalisation(ctx, 'C10.k', [BASE, ALGS], floor=4)
+    # ------------------------------------------------------------------ C10.l
+    ctx.rule('C10.l', 'the closed-form solver keeps exactly Ns[0] eigenvectors for the first precoder (its column count is the stream count '
+                      'every other quantity is sized with), as an identity of terms', floor=1)
+    from ..model import norm, walk_no_nested
+    uf = ctx.model.func(ALGS, 'ClosedFormIASolver._updateF')
+    ctx.instance('C10.l', uf.qualname)
+    from .. import terms as T_
+    loc_ = T_.local_terms(ctx.model, uf)
+    env_ = T_.Env(ctx.model, uf)
+    env_.floordiv = True
+    env_.vars.update(loc_)
+    cuts = [n for n in walk_no_nested(uf.node) if isinstance(n, ast.Assign) and len(n.targets) == 1 and isinstance(n.value, ast.Subscript)
+            and isinstance(n.value.slice, ast.Tuple) and len(n.value.slice.elts) == 2 and isinstance(n.value.slice.elts[1], ast.Slice)
+            and n.value.slice.elts[1].upper is not None and isinstance(n.value.slice.elts[0], ast.Slice) and n.value.slice.elts[0].upper is None]
+    if len(cuts) != 1:
+        ctx.error('C10.l: ClosedFormIASolver._updateF no longer cuts the first precoder out of the eigenvectors with one column slice (cannot tell)')
+    sl_ = cuts[0].value.slice.elts[1]
+    try:
+        width = T_.from_ast(sl_.upper, env_) - (T_.from_ast(sl_.lower, env_) if sl_.lower is not None else T_.Term.const(0))
+    except T_.Unknown as e_:
+        ctx.error('C10.l: the width of `%s` is not a formula (%s): cannot tell' % (norm(cuts[0].value)[:50], e_))
+    want_w = T_.parse_spec('self.Ns[0]')
+    okw = width == want_w or width == T_.substitute(want_w, {'self.Ns': T_.Term.sym('self._Ns')})
+    ctx.obligation('C10.l', uf.qualname, okw, {'slice': norm(cuts[0].value)[:60], 'width': width.pretty()})
+    if not okw:
+        ctx.violation('C10.l', uf.qualname, 'the first precoder is `%s`, %s columns wide instead of Ns[0]: with fewer streams than that the '
+                      'precoders no longer match the stream counts and the receive filters' % (norm(cuts[0].value)[:50], width.pretty()),
+                      uf.path, cuts[0].lineno, operand='precoder-width')
     ctx.rule('C10.a', 'DSF: no derived solver quantity is DIRTY at a normal exit of any public entry point', floor=100)
     for cname in IA.classes:
         analyse_class(ctx, 'C10.a', IA, cname)
